@@ -332,6 +332,9 @@ def translate_function_call():
     locks = {f'FunctionCall.{n}': lock(find_in(cls, n, UNIT)) for n in
              ('__init__', 'type_vars', 'clazz', '_check_type_param', '_check_types_args', '_check_types_kwargs',
               '_check_types_return', '_assert_param_has_type_annotation')}
+    # class-level statements (attribute defaults such as _num_of_args_bound_to_named_params = 0)
+    rest = ast.Module(body=[n for n in strip_doc(cls.body) if not isinstance(n, (ast.FunctionDef, ast.AsyncFunctionDef))], type_ignores=[])
+    locks['FunctionCall.<class attributes>'] = hashlib.sha256(ndump(rest).encode()).hexdigest()[:16]
     return (translate_args_without_self(cls), translate_auk(cls), translate_passes(cls),
             translate_get_return_value(cls, '_get_return_value', False),
             translate_get_return_value(cls, '_async_get_return_value', True),
